@@ -490,7 +490,7 @@ def c02(ctx):
 def model_codec(ctx):
     """Model-level theorems: reference encoders and decoders are mutually consistent on every enumerated stream."""
     core.tlc_model_check(ctx, "ModelCodec", dict(MaxEvents=5 if ctx.quick else 6, MaxDepth=2, MaxRich=1, MaxDocs=1, WithExt=True),
-                         ["PrefixOK", "CborRoundTrip", "UbjsonRoundTrip", "JsonRoundTrip", "Transcode"], "ModelCodec")
+                         ["PrefixOK", "CborRoundTrip", "UbjsonRoundTrip", "JsonRoundTrip", "Transcode", "ExpectObjTheorem", "ExpectObjPrefix"], "ModelCodec")
 
 
 def c07(ctx):
@@ -924,10 +924,24 @@ def c09_codec_cases(ctx):
         for doc, how in mutations(ctx, fmt, valid[: 300 if ctx.quick else 3000], rnd, 8):
             if how == "subst":
                 cases.append(case("C09", "parse", fmt, doc=doc, entry="parse", origin="mutation subst"))
-    shapes = [s for s in gen_events(ctx) if has_ext(s)]
+    allshapes = gen_events(ctx)
+    shapes = [s for s in allshapes if has_ext(s)]
     for shape in shapes:
         for st in streams.fills(shape, 1, rnd)[:4]:
             cases.append(case("C09", "extcmp", "json", stream=st, sub=dict(consumer="plain"), origin="GenEvents adapter"))
+    # package visitors: ExpectObjVisitor (forwards the members of one object; used to inline user folders) on every stream shape,
+    # event by event against SFVisitors!EoStep; NilVisitor on every fifth
+    for n, shape in enumerate(allshapes):
+        if any(a["k"] == "xobj" and a["n"] >= 2 for a in shape):      # Go map order: no fixed expansion
+            continue
+        st = streams.fills(shape, 1, rnd)[0]
+        cases.append(case("C09", "xform", "json", stream=st, sub=dict(which="expectobj"), origin="GenEvents through visitors.ExpectObjVisitor"))
+        if n % 3 == 0 and len(st) >= 2 and st[0]["k"] == "objS":
+            # an abandoned document, and a second document after the first
+            cases.append(case("C09", "xform", "json", stream=st[: 1 + n % (len(st) - 1)], sub=dict(which="expectobj"), origin="prefix through visitors.ExpectObjVisitor"))
+            cases.append(case("C09", "xform", "json", stream=st + st, sub=dict(which="expectobj"), origin="two documents through visitors.ExpectObjVisitor"))
+        if n % 5 == 0:
+            cases.append(case("C09", "xform", "json", stream=st, sub=dict(which="nil"), origin="GenEvents through visitors.NilVisitor"))
     return cases
 
 
@@ -938,17 +952,23 @@ def c09(ctx):
     number(cases)
     tf, st = core.run_harness(ctx, cases)
     failed, nv = core.tlc_validate(ctx, "TraceCodec", tf)
+    drift = sum(1 for w in failed.values() if any(r.startswith("MODEL:") for r in w))
+    if drift:
+        log("  note: %d runs of package visitors differ from the SFVisitors model (diagnostic, not gating)" % drift)
     return run.decide(
-        ctx, "TraceCodec", cases, tf, failed, nv, level_note="",
+        ctx, "TraceCodec", cases, tf, failed, nv, level_note="", extra_cov=dict(visitors_model_drift=drift),
         rule="contract monitor = SFEvents!CStep folded over every recorded event: (a) the three real parsers on every TLC-enumerated "
              "document they accept (Parse, bytewise/seeded Write, Decoder.Next), (b) the adapters of array.go/map.go/string.go "
              "(EnsureExtVisitor over a plain recording Visitor) on every TLC-enumerated stream with an extended event, (c) gotype.Fold "
              "on every TLC-enumerated Go program of GenGoType (struct tag combinations omit/omitempty/inline, pointers, interfaces, maps, "
-             "slices, IsZeroer/Folder types). Balanced and "
+             "slices, IsZeroer/Folder types), (d) visitors.ExpectObjVisitor (inlining of user folders) on every TLC-enumerated stream "
+             "shape, prefixes and two-document streams: what it forwards, wrapped in the enclosing object, must be well-formed (its "
+             "event-by-event agreement with the state machine SFVisitors!EoStep - forwarded events, refused event, Done() - is a "
+             "non-gating model diagnostic, as is NilVisitor). Balanced and "
              "nested, one key per value, announced length = elements seen, announced element type = element family. Distinct = distinct "
              "(document|stream, entry); non-trivial = at least one container.",
         nontrivial=lambda c: len(c["doc"]) >= 2 or len(c["stream"]) >= 1 or c["kind"] == "fold",
-        assumptions=TCB)
+        assumptions=TCB + ["visitors.StringConvVisitor is not exercised: it lacks OnByte, does not satisfy structform.Visitor and cannot be placed in a pipeline"])
 
 
 GOTYPE_C09 = None
@@ -1091,6 +1111,20 @@ def c13(ctx):
             cases.append(case("C13", "unfold", "go", stream=st, sub=dict(T=dict(k="iface"), V0=gotypes.zero_vd(dict(k="iface"))), origin="deep %s %d" % (kind, d)))
             st2 = [streams.ev("objS", "objS", (), -1, "any"), streams.ev("key", "key", list(b"i"))] + st + [streams.ev("key", "key", list(b"n")), streams.ev("int", "int8", streams.canon(5)), streams.ev("objE", "objE")]
             cases.append(case("C13", "unfold", "go", stream=st2, sub=dict(T=S1T, V0=gotypes.zero_vd(S1T)), origin="deep %s %d in struct field" % (kind, d)))
+    # many elements: around the unfolders' pre-allocation limit (4096) and the initial capacities of their scratch buffers
+    for n in ((5, 17, 4095, 4096, 4097) if ctx.quick else (5, 17, 33, 65, 4095, 4096, 4097, 8193)):
+        for T, mk in ((dict(k="slice", e=[dict(k="int")]), lambda j: streams.ev("int", "int16", streams.canon(j % 30000))),
+                      (dict(k="slice", e=[dict(k="iface")]), lambda j: streams.ev("int", "uint8", streams.canon(j % 250))),
+                      (dict(k="slice", e=[dict(k="string")]), lambda j: streams.ev("str", "strref" if j % 2 else "str", list(b"s%d" % j))),
+                      (dict(k="iface"), lambda j: streams.ev("bool", "bool", [j % 2]))):
+            for ann in (n, -1):
+                st = [streams.ev("arrS", "arrS", (), ann, "any")] + [mk(j) for j in range(n)] + [streams.ev("arrE", "arrE")]
+                cases.append(case("C13", "unfold", "go", stream=st, sub=dict(T=T, V0=gotypes.zero_vd(T)), origin="%d elements" % n))
+        if n <= 300 or not ctx.quick:
+            MT = dict(k="map", e=[dict(k="int")])
+            st = [streams.ev("objS", "objS", (), n, "any")] + [x for j in range(n) for x in (streams.ev("key", "keyref" if j % 2 else "key", list(b"k%d" % j)), streams.ev("int", "int8", streams.canon(j % 100)))] + [streams.ev("objE", "objE")]
+            cases.append(case("C13", "unfold", "go", stream=st, sub=dict(T=MT, V0=gotypes.zero_vd(MT)), origin="%d members" % n))
+            cases.append(case("C13", "unfold", "go", stream=st, sub=dict(T=dict(k="iface"), V0=gotypes.zero_vd(dict(k="iface"))), origin="%d members" % n))
     number(cases)
     tf, st = core.run_harness(ctx, cases)
     failed, nv = core.tlc_validate(ctx, "TraceCodec", tf)
@@ -1101,7 +1135,8 @@ def c13(ctx):
              "streams: seeded well-formed object streams built along the target type (members for a random subset of fields under the "
              "naming rule, numbers of any width that fits, strings and keys by value and by reference, announced and unknown lengths) "
              "with extra unknown members of every value kind and nesting inserted at random positions, plus every TLC-enumerated stream "
-             "shape of GenEvents (incl. extended events and announced element types) into interface{}; TraceCodec!UnfoldVerdict "
+             "shape of GenEvents (incl. extended events and announced element types) into interface{}, deep nesting 1-10, and arrays / "
+             "objects of 5..4097 elements (announced and unknown length) into slices, maps and interface{}; TraceCodec!UnfoldVerdict "
              "computes the expected result from (type, old value, stream value) with SFGoType!Exp and compares it with the reflection "
              "projection of the target. Streams whose outcome the property leaves open (shape mismatch, number that does not fit) are "
              "counted as unspecified and not judged. Distinct = distinct (type, stream); non-trivial = stream with more than 3 events.",
